@@ -311,7 +311,6 @@ impl Type {
                 iter.map(Self::iter_element)
                     .try_fold(first, |acc, curr| Some(acc | curr?))
             }
-            Self::Never => Some(Self::Never),
             _ => None,
         }
     }
